@@ -145,12 +145,22 @@ func replayZapio(steps []zapioStep, al map[string]string) (bad bool, key, what s
 	// reference on concrete bytes
 	var want []string
 	cur := ""
+	// the caller owns p: like io.Copy it reuses one transfer buffer for successive Writes and
+	// overwrites it afterwards (io.Writer: "implementations must not retain p")
+	xfer := make([]byte, 0, 64)
 	for i, st := range steps {
 		before := logs.Len()
 		switch st.Op {
 		case "W":
 			p := concZapio(st.C, al)
-			n, err := w.Write([]byte(p))
+			xfer = append(xfer[:0], p...)
+			n, err := w.Write(xfer)
+			if string(xfer) != p {
+				return true, "C17/caller-slice-modified", fmt.Sprintf("step %d Write(%q) modified the caller's slice to %q", i, p, xfer)
+			}
+			for k := range xfer[:cap(xfer)] {
+				xfer[:cap(xfer)][k] = '#'
+			}
 			if n != len(p) || err != nil {
 				return true, "C17/write-result", fmt.Sprintf("step %d Write(%q) returned (%d, %v), want (%d, nil)", i, p, n, err, len(p))
 			}
